@@ -430,6 +430,17 @@ func fixedC16(c *Ctx) {
 				"a.html": `{% macro Hello %}hello-a{% end %}{% macro Helper %}helper-a{% end %}`, "b.html": `{% macro Helper %}helper-b{% end %}`}, "index.html",
 			map[string]string{"index.html": `{% import "b.html" %}{% import "a.html" %}{{ Hello() }}{{ Helper() }}`,
 				"a.html": `{% macro Hello %}hello-a{% end %}`, "b.html": `{% macro Helper %}helper-b{% end %}`}, "index.html", false, false},
+		// files of two directories that render a file of their own directory under the same relative spelling
+		{"render-relative-path-per-directory",
+			map[string]string{"index.html": `{{ render "news/section.html" }}{{ render "shop/section.html" }}`,
+				"news/section.html": `N[{{ render "item.html" }}]`, "news/item.html": `news-item`,
+				"shop/section.html": `S[{{ render "item.html" }}{% var v = render "item.html" %}{{ v }}]`, "shop/item.html": `shop-item`}, "index.html",
+			map[string]string{"index.html": `N[news-item]S[shop-itemshop-item]`}, "index.html", false, false},
+		// one file rendered under several spellings (relative, through the parent directory, rooted)
+		{"render-one-file-several-spellings",
+			map[string]string{"index.html": `{{ render "news/section.html" }}{{ render "/news/item.html" }}{{ render "news/item.html" }}`,
+				"news/section.html": `N[{{ render "item.html" }}{{ render "../news/item.html" }}]`, "news/item.html": `news-item`}, "index.html",
+			map[string]string{"index.html": `N[news-itemnews-item]news-itemnews-item`}, "index.html", false, false},
 		// recorded: the variables of a file imported by two rendered files are initialised inside the first rendering only
 		{"import-init-only-in-first-render",
 			map[string]string{"index.html": `{% if len("x") == 2 %}{{ render "a.html" }}{% end %}{{ render "b.html" }}`,
